@@ -145,6 +145,7 @@ type caseDoc struct {
 	Flip    bool   `json:"flip"`
 	Pipelnd bool   `json:"pipelined"`
 	MsgAPI  bool   `json:"msg_api"`
+	Ctx     bool   `json:"contexts"`
 	RSeed   string `json:"rseed"`
 }
 
@@ -223,9 +224,35 @@ func runCase(t *rapid.T, cfg config) {
 		t.Fatalf("harness: connect %s: %v", cfg.name, err)
 	}
 
-	send := func(s mangos.Socket, proto string, hdr []byte, body []byte) error {
+	// Where the pattern has contexts, a case may go through Context.Send/Recv instead of the socket.
+	useCtx := !cfg.raw && (pat.name == "reqrep" || pat.name == "survey" || pat.name == "pubsub") && rapid.Bool().Draw(t, "useContexts")
+	doc.Ctx = useCtx
+	handle := map[mangos.Socket]mangos.Context{a: a, b: b}
+	if useCtx {
+		for _, s := range []mangos.Socket{a, b} {
+			if c, err := s.OpenContext(); err == nil {
+				_ = c.SetOption(mangos.OptionRecvDeadline, 10*time.Second)
+				_ = c.SetOption(mangos.OptionSendDeadline, 10*time.Second)
+				if pat.name == "survey" {
+					_ = c.SetOption(mangos.OptionSurveyTime, 20*time.Second)
+				}
+				if s == b && bn == "sub" {
+					_ = c.SetOption(mangos.OptionSubscribe, []byte{})
+				}
+				handle[s] = c
+			}
+		}
+	}
+	send := func(sk mangos.Socket, proto string, hdr []byte, body []byte) error {
+		s := handle[sk]
 		if !msgAPI {
-			return s.Send(body)
+			// the caller's buffer is the caller's again once Send has returned: reuse it at once
+			buf := append([]byte(nil), body...)
+			err := s.Send(buf)
+			for i := range buf {
+				buf[i] = 0xEE
+			}
+			return err
 		}
 		m := mangos.NewMessage(len(body))
 		m.Body = append(m.Body, body...)
@@ -234,7 +261,8 @@ func runCase(t *rapid.T, cfg config) {
 		}
 		return s.SendMsg(m)
 	}
-	recv := func(s mangos.Socket) ([]byte, []byte, error) {
+	recv := func(sk mangos.Socket) ([]byte, []byte, error) {
+		s := handle[sk]
 		if !msgAPI {
 			b, err := s.Recv()
 			return nil, b, err
